@@ -336,3 +336,88 @@ Theorem C03_object_subset_sizes_nonvacuous :
   object_subset_sizes 1 3 false = [(OOneOptional, 2%nat); (OOneOptional, 2%nat); (OOneOptional, 2%nat); (OSubset, 3%nat); (OOnlyRequired, 1%nat)].
 Proof. exact object_subset_sizes_nonvacuous. Qed.
 Print Assumptions C03_object_subset_sizes_nonvacuous.
+
+(* ---- parameters are identified by (name, location): the subschemas of the combination blocks
+   (_combination_schema, handed to _yield_negative) ---- *)
+(* every subschema belongs to query, header or cookie; each of its properties carries the schema of a
+   parameter DECLARED AT THAT LOCATION under that name, each required name is declared required there *)
+Theorem C03_combo_subschemas_declared_at_location : forall (S : Type) pos neg (params : list (dparam S)) ss,
+  In ss (combo_plan CacheNone pos neg params) ->
+  (ss_loc ss = LQuery \/ ss_loc ss = LHeader \/ ss_loc ss = LCookie)
+  /\ (forall n s, In (n, s) (ss_props ss) ->
+        exists p, (In p params /\ dp_loc p = ss_loc ss /\ dp_name p = n) /\ dp_schema p = s)
+  /\ (forall n, In n (ss_required ss) ->
+        exists p, (In p params /\ dp_loc p = ss_loc ss /\ dp_name p = n) /\ dp_required p = true).
+Proof. exact @combo_plan_declared. Qed.
+Print Assumptions C03_combo_subschemas_declared_at_location.
+
+(* the block of location l is a function of the parameters declared at l alone: two operations that
+   agree at l (and differ anywhere else, same names included), after any earlier block *)
+Theorem C03_combo_block_location_independent : forall (S : Type) pos neg (ps1 ps2 : list (dparam S)) l c1 c2,
+  filter (at_loc l) ps1 = filter (at_loc l) ps2 ->
+  fst (combo_subschemas_for CacheNone pos neg ps1 l c1) = fst (combo_subschemas_for CacheNone pos neg ps2 l c2).
+Proof. exact @combo_block_location_independent. Qed.
+Print Assumptions C03_combo_block_location_independent.
+
+Theorem C03_combo_plan_by_location : forall (S : Type) pos neg (params : list (dparam S)),
+  combo_plan CacheNone pos neg params
+  = fst (combo_subschemas_for CacheNone pos neg (filter (at_loc LQuery) params) LQuery [])
+    ++ fst (combo_subschemas_for CacheNone pos neg (filter (at_loc LHeader) params) LHeader [])
+    ++ fst (combo_subschemas_for CacheNone pos neg (filter (at_loc LCookie) params) LCookie []).
+Proof. exact @combo_plan_by_location. Qed.
+Print Assumptions C03_combo_plan_by_location.
+
+(* a cache keyed by the full identity (location, name) and shared by the three blocks changes nothing,
+   as long as no identity is declared twice *)
+Theorem C03_combo_cache_by_identity_safe_partial : forall (S : Type) pos neg (params : list (dparam S)),
+  distinct_identities params = true ->
+  combo_plan CacheByLocName pos neg params = combo_plan CacheNone pos neg params.
+Proof. exact @combo_plan_locname_safe. Qed.
+Print Assumptions C03_combo_cache_by_identity_safe_partial.
+
+(* value level: every numeric negative of a combination case (Object with invalid ... value: Value
+   greater than maximum / smaller than minimum) violates a keyword of the schema declared at
+   (location of the block, that name), so the value does not conform to the declared schema *)
+Theorem C03_combo_negative_values_violate_declared_partial :
+  forall (S : Type) (keys_of : S -> list nkey) pos neg (params : list (dparam S)) ss name v d k,
+  forallb (fun p => forallb numeric_key (keys_of (dp_schema p))) params = true ->
+  In ss (combo_plan CacheNone pos neg params) ->
+  In (name, (Some v, d, k)) (combo_negative_values keys_of ss) ->
+  exists p, (In p params /\ dp_loc p = ss_loc ss /\ dp_name p = name)
+            /\ In k (keys_of (dp_schema p)) /\ violates k v = true /\ conforms (keys_of (dp_schema p)) v = false.
+Proof. exact @combo_negative_values_violate_declared. Qed.
+Print Assumptions C03_combo_negative_values_violate_declared_partial.
+
+(* regression sentinel (what the seeded change C03_d does): one cache keyed by the parameter NAME and
+   shared by the three locations.  id is declared in query (maximum 10) and in header (no bound), no
+   identity twice: the header block gets the query schema, yields 11 as Value greater than maximum for
+   the header id, and 11 conforms to every schema declared for (header, id); the plan of the code does
+   not contain that subschema *)
+Theorem C03_combo_cache_by_name_refuted : exists (params : list (dparam (list nkey))) ss name s v d k,
+  distinct_identities params = true
+  /\ In ss (combo_plan CacheByName true true params)
+  /\ In (name, s) (ss_props ss)
+  /\ (forall p, (In p params /\ dp_loc p = ss_loc ss /\ dp_name p = name) -> dp_schema p <> s)
+  /\ In (name, (Some v, d, k)) (combo_negative_values (fun s => s) ss)
+  /\ (forall p, (In p params /\ dp_loc p = ss_loc ss /\ dp_name p = name) -> conforms (dp_schema p) v = true)
+  /\ ~ In ss (combo_plan CacheNone true true params).
+Proof.
+  exists w_shared, w_shared_header_block, 0%N, [KMaximum 10], (PInt 11), NGreater, (KMaximum 10).
+  exact combo_cache_by_name_refuted.
+Qed.
+Print Assumptions C03_combo_cache_by_name_refuted.
+
+Theorem C03_combo_plan_hypotheses_satisfiable :
+  map (fun ss => (ss_loc ss, ss_tag ss, ss_props ss, ss_required ss)) (combo_plan CacheNone true true w_shared)
+  = [ (LQuery, OnlyRequired, [(0%N, [KMaximum 10])], [0%N]);
+      (LQuery, OneOptional 1%N, [(0%N, [KMaximum 10]); (1%N, [KMinimum 1])], [0%N]);
+      (LQuery, OneOptional 2%N, [(0%N, [KMaximum 10]); (2%N, [])], [0%N]);
+      (LHeader, OnlyRequired, [(0%N, [])], [0%N]) ]
+  /\ combo_plan CacheByLocName true true w_shared = combo_plan CacheNone true true w_shared
+  /\ forallb (fun p => forallb numeric_key (dp_schema p)) w_shared = true
+  /\ flat_map (combo_negative_values (fun s => s)) (combo_plan CacheNone true true w_shared)
+     = [ (0%N, (Some (PInt 11), NGreater, KMaximum 10));
+         (0%N, (Some (PInt 11), NGreater, KMaximum 10)); (1%N, (Some (PInt 0), NSmaller, KMinimum 1));
+         (0%N, (Some (PInt 11), NGreater, KMaximum 10)) ].
+Proof. exact combo_plan_nonvacuous. Qed.
+Print Assumptions C03_combo_plan_hypotheses_satisfiable.
